@@ -61,6 +61,10 @@ def graph_family():
     out.append([(A, ["I", RDFNS + "type", None, None], I("T"))])
     out.append([(A, ["I", RDFNS + "type", None, None], I("T")), (A, P, L("x")), (A, Q, Bn)])
     out.append([(A, P, Bn), (A, P, I("c")), (A, Q, Bn), (Bn, P, A)])
+    # the same local names in two namespaces (for a prefix that is re-declared half way through a document)
+    D = lambda n: ["I", EX + "dir/" + n, None, None]  # noqa: E731
+    out.append([(A, P, Bn), (A, D("p"), Bn)])
+    out.append([(A, P, D("a")), (D("a"), D("p"), A), (Bn, Q, L("x"))])
     # blank-node topologies
     b1, b2 = B("b1"), B("b2")
     out.append([(A, P, b1)])
